@@ -575,10 +575,39 @@ def r45(ctx, fx):
                     "never reported with its location (the loop runs to the pass bound instead)" % extra, "%s:%s" % (f.file, node.get("ln")))
 
 
+def r46(ctx, fx):
+    rid = ctx.rule("R4.6", "a second definition of a read-only symbol (label, constant) in the same pass is an error whatever value it has: the condition under which "
+                   "add_symbol reports `cannot redefine symbol` does not depend on the two values being different")
+    ads = fx.fn("mos_core::codegen::CodegenContext::add_symbol")
+    if ads is None:
+        ctx.fail_closed(rid, "add_symbol not found")
+        return
+    key = "add_symbol|redefinition"
+    ctx.inst(rid, key)
+    conds = [n for n in lib.hwalk(ads.hir["body"]) if n.get("k") == "if" and "read_only" in repr(lib.hdesc(n["cond"])) and
+             any(r.get("k") == "ret" for r in lib.hwalk(n["then"]))]
+    if not conds:
+        ctx.fail_closed(rid, "the redefinition check of add_symbol was not found")
+        return
+    # the disjunct that mentions pass_idx (same-pass redefinition): none of its conjuncts may compare the data of the two symbols
+    def disjuncts(g):
+        g = lib.strip(g)
+        if g.get("k") == "binary" and g.get("op") == "Or":
+            return disjuncts(g["l"]) + disjuncts(g["r"])
+        return [g]
+    same_pass = [d for d in disjuncts(conds[0]["cond"]) if "pass_idx" in repr(lib.hdesc(d))]
+    if not same_pass:
+        ctx.finding(rid, key, "add_symbol no longer rejects a second definition of a read-only symbol in the same pass", ads.where)
+    elif any(n.get("k") == "binary" and n.get("op") in ("Ne", "Eq") and "'data'" in repr(lib.hdesc(n)) for d in same_pass for n in lib.hwalk(d)):
+        ctx.finding(rid, key, "a second definition of a label or constant is only rejected when its value differs: `a:` twice at one address, or `.const x = 1` twice, "
+                    "build without a diagnostic", "%s:%s" % (ads.file, conds[0].get("ln")))
+
+
 def run(ctx):
     fx = ctx.facts
     cg = lib.CallGraph(fx)
     r45(ctx, fx)
+    r46(ctx, fx)
     r41(ctx, fx, cg)
     r42(ctx, fx)
     r43(ctx, fx)
